@@ -109,6 +109,16 @@ def run(chk):
             # with a scalar exponent the series is one-dimensional, one value per sample (the column axis exists only for an array of b)
             chk.ob("R-PL-LEN", c + "[scalar b: 1-D]", "for a scalar b the result has shape (len(values),)", r.ret.shape is not None and len(r.ret.shape) == 1,
                    derived="shape %r" % (r.ret.shape,), loc=r.fi.loc(), inconclusive=r.ret.shape is None)
+        # a count "how many peaks have occurred up to sample i" read with np.searchsorted(peak indices, arange(n)) credits a peak at its own
+        # sample only with side='right' (entries <= i); the default side='left' counts the entries strictly before i
+        for e_ in r.I.events:
+            if e_.kind == "lib-call" and e_.name == "numpy.searchsorted" and len(e_.args) >= 2 and "arange0" in e_.args[1].tags:
+                sd_ = e_.kwargs.get("side") if e_.kwargs else None
+                if sd_ is None and len(e_.args) >= 3:
+                    sd_ = e_.args[2]
+                val_ = sd_.const if (sd_ is not None and sd_.has_const()) else ("left" if sd_ is None else None)
+                chk.ob("R-PL-LEN", c + "{peaks counted up to and including the sample}", "np.searchsorted(peak indices, arange(n), side='right')",
+                       val_ == "right", derived="side=%r" % (val_,), loc=e_.loc, stmt=e_.stmt, inconclusive=val_ is None)
         if not q.endswith("gm_arrays_w_power_law"):
             half_weight(chk, r.fi, c, "/ 2 / n_cyc")
     # ------------------------------------------------------------------ integer records: buffers inherit the record's dtype
